@@ -49,10 +49,10 @@ func resolveErrClass(err error) string {
 		return "notimp"
 	case errors.Is(err, ech.ErrQueryRefused):
 		return "refused"
-	case strings.Contains(err.Error(), "response code"):
-		return "rcode"
 	}
-	return "transport"
+	// no identity of its own (a response code without a sentinel error, a transport failure): the
+	// message text is not part of the comparison
+	return "unnamed"
 }
 
 // canonical text of a ResolveResult (HTTPS records ordered by (priority, text), map keys sorted)
